@@ -3,9 +3,10 @@
     non-vacuity examples.  [h <= 32] is Go's own range: the uint64 word has 32
     bits for the search prefix and 32 for the mask. *)
 From Coq Require Import ZArith List Bool Lia.
-From Low Require Import Lib.Bits Lib.Lex Lib.Bytes Spec.Bmtree Spec.PathSpec Spec.ContractSpec Spec.PathWideSpec
+From Low Require Import Lib.MachInt Lib.Bits Lib.Lex Lib.Bytes Spec.Bmtree Spec.PathSpec Spec.ContractSpec Spec.PathWideSpec
   Model.BmtreePath Model.BmtreePathStr Model.BmtreePathWide Proofs.BmtreePathProofs
-  Proofs.BmtreePathFamily Proofs.BmtreePathRawFields Proofs.BmtreeNewPathRaw Proofs.BmtreePathRebuild.
+  Proofs.BmtreePathFamily Proofs.BmtreePathRawFields Proofs.BmtreeNewPathRaw Proofs.BmtreePathRebuild
+  Model.BmtreeIndex Proofs.BmtreePathWideExtra.
 Import ListNotations.
 Open Scope Z_scope.
 
@@ -264,6 +265,55 @@ Theorem C10_family_checker_sound : forall h q r, (h <= 32)%nat -> (length q <= h
     (option_map (enc h) (next_out q)) (enc h r) = true.
 Proof. exact family_ok_model. Qed.
 Print Assumptions C10_family_checker_sound.
+
+(** ** NewPath with ANY search word in the documented range: what the accessors return *)
+Theorem C10_fields_anybits : forall sb h l w, (h <= 32)%nat -> (l <= h)%nat ->
+  NewPath_full sb (Z.of_nat l) (Z.of_nat h) = Some w ->
+  PathLen w = Z.of_nat l /\ ((1 <= l)%nat -> PathHeight w = Z.of_nat h) /\
+  PathBits w = sb mod 2 ^ 32 /\ PathMask w = Mask (Z.of_nat l) * 2 ^ (Z.of_nat h - Z.of_nat l).
+Proof. exact fields_anybits. Qed.
+Print Assumptions C10_fields_anybits.
+
+(** ** siblings *)
+Theorem C10_next_of_left_child : forall p, next_out (p ++ [false]) = Some (p ++ [true]).
+Proof. exact next_out_app_false. Qed.
+Print Assumptions C10_next_of_left_child.
+
+Theorem C10_next_of_right_child : forall p, next_out (p ++ [true]) = next_out p.
+Proof. exact next_out_app_true. Qed.
+Print Assumptions C10_next_of_right_child.
+
+Theorem C10_left_subtree_below_sibling : forall h p s, (h <= 32)%nat -> (length p + 1 + length s <= h)%nat ->
+  enc h (p ++ [false] ++ s) < enc h (p ++ [true]).
+Proof. exact left_subtree_below_sibling. Qed.
+Print Assumptions C10_left_subtree_below_sibling.
+
+(** ** the repo's own well-formedness test (pathcheck.go, debug build; model in
+    Model/BmtreeIndex.v, correspondence through the debug operations of C03) against decoding *)
+Theorem C10_pathCheck_decodes : forall w, 0 <= w < 2 ^ 64 -> u32 w <> 0 ->
+  (pathCheck w = true <-> PathHeight w <= 30 /\ is_some (dec_word w (PathHeight w)) = true).
+Proof. exact pathCheck_iff_decodes. Qed.
+Print Assumptions C10_pathCheck_decodes.
+
+(** with an empty mask half pathCheck accepts any search bits below 2^30, but only 0 is a path word *)
+Theorem C10_pathCheck_empty_mask : forall w, 0 <= w < 2 ^ 64 -> u32 w = 0 ->
+  (pathCheck w = true <-> w / 2 ^ 32 < 2 ^ 30).
+Proof. exact pathCheck_empty_mask. Qed.
+Print Assumptions C10_pathCheck_empty_mask.
+
+Theorem C10_decodes_empty_mask : forall w, 0 <= w < 2 ^ 64 -> u32 w = 0 ->
+  (is_some (dec_word w (PathHeight w)) = true <-> w = 0).
+Proof. exact decodes_empty_mask. Qed.
+Print Assumptions C10_decodes_empty_mask.
+
+Example C10_wide2_nonvacuous :
+  NewPath_full 0xfffffffff 2 5 = Some 0xffffffff00000018 /\
+  PathLen 0xffffffff00000018 = 2 /\ PathHeight 0xffffffff00000018 = 5 /\
+  next_out ([true] ++ [false]) = Some [true; true] /\
+  pathCheck (enc 30 [true; false; true]) = true /\
+  pathCheck 0x500000000 = true /\ is_some (dec_word 0x500000000 (PathHeight 0x500000000)) = false /\
+  pathCheck (enc 31 [true]) = false /\ is_some (dec_word (enc 31 [true]) (PathHeight (enc 31 [true]))) = true.
+Proof. repeat apply conj; vm_compute; reflexivity. Qed.
 
 (** non-vacuity of the widening: a call outside the documented range (height 40: the
     mask reaches the upper half), a panic, a non-canonical search word, a word with a
